@@ -150,11 +150,11 @@ func bindRecvShared(c *core.Case) {
 			}
 		}
 		got, jerr := jid.Parse(jt)
-		if jt == "" || jerr != nil || got.Resourcepart() == "" || !got.Bare().Equal(res.client.Bare()) {
+		if jt == "" || jerr != nil || got.Resourcepart() == "" || !sameJID(got.Bare(), res.client.Bare()) {
 			c.Violate("hdr:bind:reply-jid", "%s: client %q was assigned %q (want its bare address plus a fresh resource)", where, res.client, jt)
 			return
 		}
-		if !res.sess.RemoteAddr().Bare().Equal(got.Bare()) {
+		if !sameJID(res.sess.RemoteAddr().Bare(), got.Bare()) {
 			c.Violate("hdr:bind:reply-jid", "%s: the session reports remote address %q, the reply assigned %q", where, res.sess.RemoteAddr(), got)
 			return
 		}
